@@ -34,6 +34,9 @@ def _check_shift(case):
             summ.append("OOB")
             continue
         if st == "exc":
+            if exact == "loose" and isinstance(r, PE) and ival.tiny_features(exp):
+                summ.append("T")  # a one-ulp interval / gap closed by rounding and was refused: legitimate
+                continue
             viols.append(Viol("shift-raised:" + type(r).__name__, f"{tag} on {entries} span ({lo},{hi}) raised {r!r}"))
             summ.append("X")
             continue
@@ -58,7 +61,7 @@ def _check_shift(case):
             summ.append("!")
             continue
         summ.append(str(len(exp)))
-        if mode == "silence" and len(exp) == len(E) and all(x[0] + F(off) >= 0 for x in E):
+        if mode == "silence" and exact != "loose" and len(exp) == len(E) and all(x[0] + F(off) >= 0 for x in E):
             n += 1
             st2, back, _ = call(r.editTimestamps, -off, "silence")
             if st2 == "exc":
@@ -250,6 +253,16 @@ def parts(tier):
             p = D.labelled_points(s)
             for off in DOFFS:
                 yield ("P", p, 0.1, 2.3, off, False)
+        # ulp-neighbour grid with offsets that land entries exactly on, one ulp below and one ulp above time 0
+        U = tuple(sorted(D.ULP))
+        for s in D.interval_sets(U, 2):
+            e = D.labelled(s)
+            for off in (-0.1, -0.3, -(0.1 + 0.2), -0.8, 0.5):
+                yield ("I", e, U[0], U[-1], off, "loose")
+        for s in D.point_sets(U, 3):
+            p = D.labelled_points(s)
+            for off in (-0.1, -0.3, -(0.1 + 0.2), -0.8, 0.5):
+                yield ("P", p, U[0], U[-1], off, "loose")
 
     ps.append(InputPart(
         "shift-tiers", gen_shift, _check_shift,
